@@ -1,9 +1,10 @@
 #!/bin/sh
 # Build the framework from files on disk only (offline): Coq theories and the Rust harness.
-set -e
+# Every ./check rebuilds its own targets against /repo's current tree; this only warms the caches.
 cd "$(dirname "$0")"
 mkdir -p work evidence replays
 python3 tools/extract_consts.py all || true
-(cd coq && coq_makefile -f _CoqProject -o Makefile >/dev/null && timeout 3600 make -j16 >../work/setup_coq.log 2>&1) || { tail -30 work/setup_coq.log; exit 1; }
+python3 tools/gen_coqproject.py
+(cd coq && timeout 5400 make -k -j16 >../work/setup_coq.log 2>&1) || { echo "warning: some Coq files did not build (each check reports its own)"; tail -5 work/setup_coq.log; }
 (cd harness && cp /repo/Cargo.lock Cargo.lock && CARGO_NET_OFFLINE=true timeout 3600 cargo build --offline >../work/setup_cargo.log 2>&1) || { tail -30 work/setup_cargo.log; exit 1; }
 echo setup ok
